@@ -381,15 +381,23 @@ func fromOrig(c common, orig any) (Manifest, error) {
 	if err != nil {
 		return nil, err
 	}
+	sm, isSigned := orig.(schema1.SignedManifest)
+	if isSigned {
+		// the signed manifest only marshals to the JWS through its pointer receiver
+		mj, err = sm.MarshalJSON()
+		if err != nil {
+			return nil, err
+		}
+	}
 	c.manifSet = true
 	if len(c.rawBody) == 0 {
 		c.rawBody = mj
 	}
-	if _, ok := orig.(schema1.SignedManifest); !ok {
+	if !isSigned {
 		c.desc.Digest = c.desc.DigestAlgo().FromBytes(mj)
 		c.desc.Size = int64(len(mj))
-	} else if c.desc.Size == 0 {
-		c.desc.Size = int64(len(mj))
+	} else {
+		c.desc.Size = int64(len(sm.Canonical))
 	}
 	// create manifest based on type
 	switch mOrig := orig.(type) {
